@@ -191,7 +191,8 @@ def check(ctx, rep):
                             n_block += 1
                             key = "%s: %s() with a lock held" % (e.fn.qualname, name)
                             held = [fmt(l[1]) for l in e.locks]
-                            if e.fn.qualname == "ThrottleExecutor._block_until_ready" and all(lock_role(it, p, l[1]) == ("ShutdownHelper", gatefield) for l in e.locks):
+                            if rname.startswith("ThrottleExecutor.submit") and name == "wait" and e.d["args"] and all(lock_role(it, p, l[1]) == ("ShutdownHelper", gatefield) for l in e.locks):
+                                key = "ThrottleExecutor.submit (blocking mode): timed wait() inside the shutdown gate"
                                 rep.exception("R-LOCK-BLOCK", key, "blocking mode of ThrottleExecutor: submit() is documented to block, and it does so inside the shutdown gate; the wait is timed (30 s) and re-checks the shutdown flag")
                                 continue
                             rep.ob("R-LOCK-BLOCK", key, False, "%s.%s() blocks while %s is held (reached from %s)" % (fmt(r), name, ", ".join(held), rname), where_of(e.fn, e.node), trace_of(p, e.seq))
